@@ -241,6 +241,15 @@ class RunResult:
         self.sample = None  # human-readable description of the case
         self.log = EventLog()
         self.info = {}
+        self.margins = {}  # name -> largest observed (violation quantity / allowed slack); > 1 means violated
+
+    def margin(self, name, ratio):
+        try:
+            r = float(ratio)
+        except Exception:
+            return
+        if r == r and r > self.margins.get(name, float("-inf")):
+            self.margins[name] = r
 
     def probe(self, name, k=1):
         self.probes[name] = self.probes.get(name, 0) + k
@@ -269,4 +278,5 @@ class RunResult:
             "digest": self.log.digest(),
             "sample": self.sample,
             "info": self.info,
+            "margins": self.margins,
         }
